@@ -56,8 +56,13 @@ func (r ReduceFieldValue) Execute(ctx context.Context, fieldsMeta []tsquery.Fiel
 			}
 		}
 
-		// Verify all requested fields were found
-		if len(fieldsToReduce) != len(r.fieldUrnsToReduce) {
+		// Verify all requested fields were found. Comparing by urn and not by the number of fields picked, since the
+		// available fields may hold the same urn more than once (e.g. a selected field re-using an existing urn)
+		foundUrns := make(map[string]bool, len(fieldsToReduce))
+		for _, meta := range fieldsToReduce {
+			foundUrns[meta.Urn()] = true
+		}
+		if len(foundUrns) != len(r.fieldUrnsToReduce) {
 			missingFields := make([]string, 0)
 			for urn := range r.fieldUrnsToReduce {
 				found := false
